@@ -277,6 +277,8 @@ def deep_copy(v):
 
 # ---------------------------------------------------------------- engine
 class Engine:
+    _index_cache = {}
+
     def __init__(self, funcs, srcroots, bigw=136, loop_bound=80, query_timeout_ms=20000,
                  follow_unwind=False):
         self.funcs = funcs
@@ -284,12 +286,18 @@ class Engine:
         self.bigw = bigw
         self.loop_bound = loop_bound
         self.follow_unwind = follow_unwind
-        self.alias = {}
-        self.closures = {}
-        self.enums = []           # [(path components tuple, [variants])]
-        self.variant_owner = {}   # variant name -> [enum short names]
-        self._index()
-        self._scan_enums()
+        ck = (id(funcs), tuple(self.srcroots))
+        cached = Engine._index_cache.get(ck)
+        if cached is None:
+            self.alias = {}
+            self.closures = {}
+            self.enums = []           # [(path components tuple, [variants])]
+            self.variant_owner = {}   # variant name -> [enum full paths]
+            self._index()
+            self._scan_enums()
+            Engine._index_cache[ck] = (self.alias, self.closures, self.enums, self.variant_owner)
+        else:
+            self.alias, self.closures, self.enums, self.variant_owner = cached
         self.solver = z3.Solver()
         self.solver.set('timeout', query_timeout_ms)
         self.stats = dict(paths=0, queries=0, stmts=0, solver_s=0.0, calls=0)
@@ -403,7 +411,18 @@ class Engine:
         return e[1].index(v.variant)
 
     def resolve(self, callee):
-        c = callee if callee.startswith('<') else strip_generics(callee)
+        if callee.startswith('<'):
+            depth, j = 0, 0
+            for j, ch in enumerate(callee):
+                if ch == '<':
+                    depth += 1
+                elif ch == '>' and callee[j - 1] not in '-=':
+                    depth -= 1
+                    if depth == 0:
+                        break
+            c = callee[:j + 1] + strip_generics(callee[j + 1:])
+        else:
+            c = strip_generics(callee)
         if c in self.funcs:
             return c
         short = c.split('::')
@@ -418,8 +437,8 @@ class Engine:
             t, tr, me = m.groups()
             t = re.sub(r'<.*>', '', t)
             tr = re.sub(r'<.*>', '', tr)
-            cand = '<%s as %s>::%s' % (t.split('::')[-1].lstrip('&'), tr.split('::')[-1], me)
-            if cand in self.alias:
+            cand = '<%s as %s>::%s' % (t.split('::')[-1], tr.split('::')[-1], me)
+            if cand in self.alias and not t.startswith('&'):
                 return self.alias[cand]
         # suffix match on defined names: "a::b::f" defined, callee "b::f"
         suf = '::' + c
@@ -613,6 +632,9 @@ class Engine:
         while isinstance(v, Ref):
             v = self.walk(v.cell.v, v.proj, fr)
         return v
+
+    def deref_once(self, r, fr=None):
+        return self.walk(r.cell.v, r.proj, fr)
 
     def walk(self, v, proj, fr):
         for p in proj:
@@ -1118,11 +1140,16 @@ class Engine:
         if h is None:
             from .models import MODELS
             cands = []
+            norm = re.sub(r'\b(?:std|core|alloc)::(?:hash|ops|cmp|clone|convert|default|borrow|iter|fmt|marker)::', '', callee)
             for pat, fn in MODELS:
                 m = pat.match(callee)
+                if m is None and norm != callee:
+                    m = pat.match(norm)
                 if m:
                     cands.append((fn, m))
             fnname = self.resolve(callee)
+            if fnname is None and norm != callee:
+                fnname = self.resolve(norm)
             h = (cands, fnname)
             self._callcache[callee] = h
         cands, fnname = h
